@@ -10,38 +10,8 @@
 From Verif Require Import Common.Base.
 From Verif Require Import Generated.C15Recv Generated.C15GrpcExp Generated.C15HttpExp Generated.C15StatusUtil Generated.C15Shutdown.
 From Verif Require Import Generated.C15RecvHttpGraph Generated.C15ErrorsGraph.
-From Verif Require Import C15.Model C15.Harness.
+From Verif Require Import C15.Model C15.Harness C15.PropCheck.
 Local Open Scope Z_scope.
-
-Definition resp_obs (r : response) : list Z :=
-  [rs_status r;
-   match rs_retry_after r with Some _ => 1 | None => 0 end;
-   match rs_retry_after r with Some s => s | None => 0 end;
-   opt_code (rs_body_code r)].
-
-Definition ri_flag (has_ri d : Z) : option Z := if has_ri =? 0 then None else Some d.
-
-(* model output for one line of the dumped graph *)
-Definition dump_model (c : nat * (list Z * list Z)) : option (list Z) :=
-  match fst c, fst (snd c) with
-  | 1%nat, [st; has_ri; d] => Some (firstn 3 (resp_obs (write_status_response st (14, ri_flag has_ri d))))
-  | 2%nat, [post; cls] => Some [read_content_type (negb (post =? 0)) (ct_of_z cls)]
-  | 3%nat, [cls; st] =>
-      let r := error_handler (ct_of_z cls) st in Some [rs_status r; opt_code (rs_body_code r)]
-  | 4%nat, [ct; code; def; has_ri; d] =>
-      Some (resp_obs (write_error (if code =? (-1) then None else Some (code, ri_flag has_ri d)) def))
-  | _, _ => None
-  end.
-
-Definition check_dump (c : nat * (list Z * list Z)) : bool :=
-  match dump_model c with
-  | Some m => zlist_eqb m (snd (snd c))
-  | None => false
-  end.
-
-(* how many lines of each kind the dump must at least contain (a dump that silently shrank is not a proof) *)
-Definition count_kind (k : nat) (l : list (nat * (list Z * list Z))) : nat :=
-  length (filter (fun c => Nat.eqb (fst c) k) l).
 
 Lemma recvhttp_graph_complete_l :
   (1000 <=? count_kind 1 recvhttp_graph = true)%nat /\ (count_kind 2 recvhttp_graph = 6)%nat /\
